@@ -142,11 +142,16 @@ def roundtrip(cls, kwargs, it, which):
         return None
     rec["before"] = flat_axis(ax, it)
     try:
+        # the serialised dict is read TWICE (one saved description used for two arrays) and the axis is looked at again afterwards:
+        # both reads give the axis, and neither the dict's reader nor the writer changed the axis that was serialised
         if which == "method":
-            ax2 = A.AxisMetadata.from_dict(ax.to_dict())
+            d = ax.to_dict()
+            ax2, ax3 = A.AxisMetadata.from_dict(d), A.AxisMetadata.from_dict(d)
         else:
-            ax2 = A.axis_from_dict(A.axis_to_dict(ax))
-        rec["after"] = flat_axis(ax2, it)
+            d = A.axis_to_dict(ax)
+            ax2, ax3 = A.axis_from_dict(d), A.axis_from_dict(d)
+        first, second, kept = flat_axis(ax2, it), flat_axis(ax3, it), flat_axis(ax, it)
+        rec["after"] = first if first != rec["before"] else (second if second != rec["before"] else kept)
     except Exception as ex:
         rec["raised"] = True
         rec["exc"] = type(ex).__name__
